@@ -31,3 +31,38 @@ package filestore
 //@   ensures[inside_root] err == nil && !isURLPath(old(b.PosInfo.FullPath)) ==> insideRoot(old(f.root), old(b.PosInfo.FullPath))
 //@   ensures[files_enabled] err == nil && !isURLPath(old(b.PosInfo.FullPath)) ==> old(f.AllowFiles)
 //@   ensures[urls_enabled] err == nil && isURLPath(old(b.PosInfo.FullPath)) ==> old(f.AllowUrls)
+
+// ---- C03: filestore reads are verified against the multihash they were stored under ------
+//@ spec cidPrefix(c cid.Cid) cid.Prefix
+//@ func ext (github.com/ipfs/go-cid.Cid).Prefix
+//@   ensures result == cidPrefix(c)
+//@ spec sumCid(p cid.Prefix, data []byte) cid.Cid
+//@ func ext (github.com/ipfs/go-cid.Prefix).Sum
+//@   ensures err == nil ==> result0 == sumCid(p, data)
+//@ func ext (github.com/ipfs/go-cid.Cid).Equals
+//@   ensures result == (c == o)
+//@ spec rawCidV1(m mh.Multihash) cid.Cid
+//@ func ext github.com/ipfs/go-cid.NewCidV1
+//@   ensures codecType == cid.Raw ==> result == rawCidV1(mhash)
+//@ func (*FileManager).makeReader
+//@   assumed
+//@ func iface github.com/ipfs/boxo/filestore.fileReader.ReadAt
+
+//@ func (*FileManager).readFileDataObj
+//@   prop C03
+//@   arith int-assumed
+//@   requires f != nil && d != nil
+//@   modifies all
+//@   ensures[hash_matches] err == nil ==> sumCid(cidPrefix(rawCidV1(m)), result0) == rawCidV1(m)
+//@   ensures[whole_block_read] err == nil ==> len(result0) == int(res("call:GetSize#0")) && res("invoke:ReadAt#0", 1) == nil
+//@   ensures[files_enabled] err == nil ==> old(f.AllowFiles)
+//@   site[read_into_result] invoke:ReadAt : arg1 == outbuf
+
+//@ func (*FileManager).readURLDataObj
+//@   prop C03
+//@   arith int-assumed
+//@   requires f != nil && d != nil
+//@   modifies all
+//@   ensures[hash_matches] err == nil ==> sumCid(cidPrefix(rawCidV1(m)), result0) == rawCidV1(m)
+//@   ensures[whole_block_read] err == nil ==> len(result0) == int(res("call:GetSize#1")) && res("call:ReadFull#0", 1) == nil
+//@   ensures[urls_enabled] err == nil ==> old(f.AllowUrls)
